@@ -301,7 +301,8 @@ func VerifH_Locality() {
 	menu := verifMenuStructure
 	if verifrt.Bound("MENU") == 1 {
 		// schema-bearing documents (real schema library)
-		menu = []int{tURLParam, tGet, tPathDir, tRespRef, tRequestObj, tTypeObj, tEnum, tTypeAllOf, tGetPath}
+		// (a TAG with an un-parenthesised Description: free text that the next declaration must end)
+		menu = []int{tURLParam, tGet, tPathDir, tRespRef, tRequestObj, tTypeObj, tEnum, tTypeAllOf, tGetPath, tTag, tDescription}
 	}
 	_, lines := verifDocLines(menu, k, true)
 	if !refResolveLines(lines) {
